@@ -574,6 +574,11 @@ class Producer(object):
             Params:
             failed_payloads - list of (payload, failure) tuples
             """
+            if self.stopping:
+                # stop() fails every outstanding send itself once the
+                # in-flight request it cancelled has been processed: never
+                # schedule a retry that would transmit after the stop.
+                return
             # Do we have retries left?
             if self._req_attempts >= self._max_attempts:
                 # No, no retries left, fail each failed_payload with its
